@@ -86,6 +86,18 @@ def cores(repo):
                 "the component, `et[1]` — the vote an onmatch look-ahead may have left — a field of the element; `_do_lasts` and "
                 "`clear_errors` are opaque calls)."),
          [("Matcher", "matches")]),
+        (py2lean.Core(
+            repo, "When",
+            [("csvpath/matching/productions/equality.py", "Equality", ["_do_when"])],
+            heap=True,
+            ignore=LOGGING,
+            opaque={"self.left.matches": "left_matches", "self.right.matches": "right_matches"},
+            observers={"self.default_match()"},
+            observe_text={"self._left_nocontrib(self.left)", "isinstance(self.left, Function)", "self.left.override_frozen()"},
+            doc="C03/C04: the when/do operator (`Equality._do_when`): the right-hand side runs exactly when the left-hand side answers True, in the "
+                "state the left-hand side leaves (heap mode; `self.left.matches`, `self.right.matches` are opaque calls into the two sides; "
+                "`_left_nocontrib(self.left)`, `isinstance(self.left, Function)`, `self.left.override_frozen()` are read as facts about the left side)."),
+         [("Equality", "_do_when")]),
     ]
 
 
